@@ -20,10 +20,13 @@ def sh(cmd, cwd=None, env=None):
     return p.returncode, p.stdout
 
 
-def run_checks(vc, rp):
+TARGET_ONLY = "--target-only" in sys.argv
+
+
+def run_checks(vc, rp, name=None):
     env = dict(os.environ, EDGEGRAPH_REPO=rp)
     row = {}
-    for pid in PIDS:
+    for pid in ([name.split("-")[0]] if (TARGET_ONLY and name) else PIDS):
         rc, o = sh(f"./check {pid} quick", cwd=vc, env=env)
         v = [l for l in o.splitlines() if l.startswith("VIOLATION")]
         row[pid] = ("-" if rc == 0 else "X") if not v else ("N" if all("no-failing-input-found" in l for l in v) else "V")
@@ -47,23 +50,23 @@ def work(args):
             if rc != 0:
                 out[sd.name] = {"error": o[-200:]}
                 continue
-            out[sd.name] = run_checks(vc, rp)
-            print(sd.name, "".join(out[sd.name][p] for p in PIDS), flush=True)
+            out[sd.name] = run_checks(vc, rp, sd.name)
+            print(sd.name, "".join(out[sd.name].get(p, ".") for p in PIDS), flush=True)
     finally:
         sh(f"git -C /repo worktree remove --force {rp}; rm -rf {vc}")
     return out
 
 
 def main():
-    only = sys.argv[1:]
+    only = [a for a in sys.argv[1:] if not a.startswith("--")]
     seeds = sorted(p for p in Path("/verif/seeded").iterdir() if (p / "patch.diff").exists() and (not only or p.name in only))
     groups = [(k, seeds[k::SLOTS]) for k in range(SLOTS)]
     groups[0] = (0, [None] + groups[0][1])          # the unchanged tree first: no check may alarm
-    res = json.loads(DST.read_text()) if (only and DST.exists()) else {}
+    res = json.loads(DST.read_text()) if (only and DST.exists() and not TARGET_ONLY) else {}
     with ThreadPoolExecutor(max_workers=SLOTS) as ex:
         for r in ex.map(work, groups):
             res.update(r)
-    DST.write_text(json.dumps(res, indent=1, sort_keys=True))
+    (DST.with_name("targetsweep.json") if TARGET_ONLY else DST).write_text(json.dumps(res, indent=1, sort_keys=True))
 
 
 if __name__ == "__main__":
